@@ -16,7 +16,6 @@ import (
 	"fmt"
 	"math/bits"
 
-	"github.com/tetratelabs/wazero"
 	rs "github.com/tetratelabs/wazero/verif/checks/c05/refsem"
 	"github.com/tetratelabs/wazero/verif/wb"
 )
@@ -346,14 +345,14 @@ func (w *worker) runRegpos(tk rpTask, st *stats, rep func(rm rpMismatch)) (execs
 	st.modules.Add(2)
 	pt := groups[0].pt
 	for e := 0; e < 2; e++ {
-		cm, err := w.rt[e].CompileModule(ctx, bin)
+		cm, err := w.compile(e, bin)
 		if err != nil {
-			rep(rpMismatch{f: groups[0].fns[0], engine: e, which: "error", got: "compile error: " + firstLine(err.Error()), want: "valid module"})
+			rep(rpMismatch{f: groups[0].fns[0], engine: e, which: errClass("compile", err), got: errText("compile", err), want: "valid module"})
 			continue
 		}
-		mod, err := w.rt[e].InstantiateModule(ctx, cm, wazero.NewModuleConfig().WithName(""))
+		mod, err := w.instantiate(e, cm)
 		if err != nil {
-			rep(rpMismatch{f: groups[0].fns[0], engine: e, which: "error", got: "instantiate error: " + firstLine(err.Error()), want: "instance"})
+			rep(rpMismatch{f: groups[0].fns[0], engine: e, which: errClass("instantiate", err), got: errText("instantiate", err), want: "instance"})
 			cm.Close(ctx)
 			continue
 		}
@@ -392,7 +391,7 @@ func (w *worker) runRegpos(tk rpTask, st *stats, rep func(rm rpMismatch)) (execs
 					binary.LittleEndian.PutUint64(mem[rpOut0+s*16+8:], 0x5a5a5a5a5a5a5a5a)
 					binary.LittleEndian.PutUint64(mem[rpOut1+s*16:], 0xa5a5a5a5a5a5a5a5)
 				}
-				if _, err := fn.Call(ctx, uint64(c1-c0)); err != nil {
+				if _, err := call(fn, uint64(c1-c0)); err != nil {
 					sl := slots[c0]
 					rep(rpMismatch{f: g.fns[sl.f], it: sl.it, engine: e, which: "error", got: "error in the batch starting here: " + firstLine(err.Error()), want: "no trap (trapping tuples are excluded)"})
 					continue
